@@ -13,6 +13,11 @@ for line in out.splitlines():
     if m:
         res.setdefault(m.group(1), {'status': 'DETECTED', 'findings': []})['findings'].append(m.group(2))
 why_missed = {
+ 'C09-Br9': 'the formatter prints the decoded pad character of a helper shared with the model visitor instead of the token text; a rule "token text is not substituted under a test of the text itself" was designed (DESIGN 8.2, round 9) and not built',
+ 'C11-Br9': 'a comment-wrapping loop that makes no progress when the last word is longer than the line: a termination argument over string arithmetic, no structural clause',
+ 'C02-Ar9': 'the Go init() registrations are collected for the packet and its direct inline objects only (a descent that stops at depth one); which emitted call ends up in which emitted init() is not a relation between Go-level facts the matrix sees',
+ 'C05-Ar9': 'the Python register calls are deferred to the end of the module but written out for top-level packets only: same slip as C02-Ar9 (a per-name side table consulted for declared packets only)',
+ 'C06-Br9': 'a shadowed `typ :=` discards the type looked up in the MetaData table; after repair 7b4e584 the seed is re-based - see its meta.json',
  'C02-Ar6': 'emitted-Python control flow: `self.x = []` is emitted by the routine that produces the body of the element loop, so the reset runs once per element; which emitted line ends up inside which emitted loop is not a relation between Go-level facts',
  'C04-Ar6': 'value-level: emitted Rust arithmetic measures from the end of the placeholder, counting every field declared between the length and its target (same family as C04-A, C04-Ar5)',
  'C04-Br6': 'emitted-Go semantics: a consistency check in Decode takes the difference of bytes.Buffer.Len() before and after, which shrinks while decoding; needs the semantics of the emitted program',
